@@ -1,15 +1,26 @@
-// C19 generators: op lists (AddEmptyTrack + one Set*Descriptor each) with parameter sets serialised by nalgen.
+// C19 generators: track lists (AddEmptyTrack arguments + the descriptors set on the track), the order in which the
+// calls are made, and the fragment-building history. Parameter sets are value trees drawn by verif/internal/esgen
+// (every optional syntax branch: VUI, HRD, scaling lists, cropping, sub-layers, extensions ...) and serialised by
+// the bit writers of verif/internal/nalgen; what the oracle needs from a tree (cropped size, chroma format, bit
+// depths, profile/tier/level bytes) is computed from the TREE when the case is drawn and stored in the case.
 package c19
 
 import (
 	"fmt"
 
-	"github.com/Eyevinn/mp4ff/hevc"
 	"pgregory.net/rapid"
 
+	"verif/internal/esgen"
 	"verif/internal/harness"
 	"verif/internal/nalgen"
 )
+
+func init() {
+	// esgen's switches steer C15's VALUE oracles around parser defects; here the parser only has to find the picture
+	// size and the record fields, so every shape is generated (as props/c16 does) and nothing is counted by esgen.
+	esgen.DisableAvoidance()
+	esgen.Quiet = true
+}
 
 // avoidKnown: one switch per CONFIRMED defect of the unchanged library (reproducers: /verif/replay/C19/kf-<name>.json,
 // they carry "noAvoid": true). While a switch is on, the generator steers away from the triggering feature or the
@@ -78,12 +89,9 @@ type sampleSpec struct {
 	DecodeTime uint64           `json:"decodeTime"`
 }
 
-// trackOp is one AddEmptyTrack call followed by the Set*Descriptor call named by Codec.
-type trackOp struct {
-	Timescale uint32 `json:"timescale"`
-	MediaType string `json:"mediaType"`
-	Lang      string `json:"lang"`
-	Codec     string `json:"codec"` // avc | hevc | aac | ac3 | ec3 | wvtt | stpp | none
+// descSpec is one Set*Descriptor call: the arguments, and for video what the generator's model says about them.
+type descSpec struct {
+	Codec string `json:"codec"` // avc | hevc | aac | ac3 | ec3 | wvtt | stpp | none
 	// video
 	SampleEntry string             `json:"sampleEntry,omitempty"` // avc1 | avc3 | hvc1 | hev1
 	IncludePS   bool               `json:"includePS,omitempty"`
@@ -91,7 +99,8 @@ type trackOp struct {
 	SPS         []harness.HexBytes `json:"sps,omitempty"`
 	PPS         []harness.HexBytes `json:"pps,omitempty"`
 	SEI         []harness.HexBytes `json:"sei,omitempty"`
-	// what the generator's model (nalgen value tree of SPS[0]) says
+	// what the generator's model (value tree of SPS[0]) says: cropped luma size by the formulas of H.264 7.4.2.1.1
+	// (7-13, 7-16, 7-18 .. 7-22 and the frame cropping rectangle) / H.265 7.4.3.2.1 (conformance window, Table 6-1)
 	Width    uint32           `json:"width,omitempty"`
 	Height   uint32           `json:"height,omitempty"`
 	Chroma   byte             `json:"chroma,omitempty"`
@@ -108,15 +117,74 @@ type trackOp struct {
 	StppNS     string `json:"stppNS,omitempty"`
 	StppSchema string `json:"stppSchema,omitempty"`
 	StppAux    string `json:"stppAux,omitempty"`
-	// the sample written for this track into the fragments
+}
+
+// trackOp is one AddEmptyTrack call and the descriptor(s) set on that track: the embedded one (its fields appear
+// flattened in the JSON form, which is the layout of the cases recorded before "alt" and "order" existed) and an
+// optional second one that a history may set on the same track after (or instead of) the first.
+type trackOp struct {
+	Timescale uint32 `json:"timescale"`
+	MediaType string `json:"mediaType"`
+	Lang      string `json:"lang"`
+	descSpec
+	Alt *descSpec `json:"alt,omitempty"`
+	// the sample written for this track into the fragments of the fixed (pre-"frags") fragment history
 	Sample sampleSpec `json:"sample"`
+}
+
+// step is one call of the init-building history.
+type step struct {
+	Op    string `json:"op"`            // "add": AddEmptyTrack for Ops[Track] (Track must be the number of tracks added so far) | "set": Set*Descriptor on track Track
+	Track int    `json:"track"`         // index into Ops (track id - 1)
+	Alt   bool   `json:"alt,omitempty"` // "set": the arguments are Ops[Track].Alt instead of the embedded descriptor
+}
+
+// fragSpec is one CreateFragment / CreateMultiTrackFragment call; its sequence number is SeqNr + index.
+type fragSpec struct {
+	Tracks []int `json:"tracks"`          // indices into Ops; distinct
+	Multi  bool  `json:"multi,omitempty"` // CreateMultiTrackFragment (always when len(Tracks) != 1)
+}
+
+// fragStep is one call of the fragment-building history.
+type fragStep struct {
+	Op      string      `json:"op"`                // "seg": NewMediaSegment[WithoutStyp] | "frag": create Frags[Frag] | "attach": AddFragment(Frags[Frag]) to the latest segment | "sample"
+	Frag    int         `json:"frag,omitempty"`    // index into Frags
+	Track   int         `json:"track,omitempty"`   // "sample": index into Ops
+	ToTrack bool        `json:"toTrack,omitempty"` // "sample": AddFullSampleToTrack (always for multi-track fragments), else AddFullSample
+	Sample  *sampleSpec `json:"sample,omitempty"`
+}
+
+// fragPlan: the fragment part of the history. Loose: no media segments, the fragments are encoded one by one in
+// creation order with Fragment.Encode (no "seg"/"attach" steps).
+type fragPlan struct {
+	Frags []fragSpec `json:"frags"`
+	Steps []fragStep `json:"steps"`
+	Loose bool       `json:"loose,omitempty"`
+	Styp  bool       `json:"styp,omitempty"` // NewMediaSegment (styp box) instead of NewMediaSegmentWithoutStyp
 }
 
 type initCase struct {
 	Ops       []trackOp `json:"ops"`
-	SingleIdx int       `json:"singleIdx"` // track (index into Ops) of the CreateFragment fragment
+	SingleIdx int       `json:"singleIdx"` // track (index into Ops) of the CreateFragment fragment of the fixed fragment history
 	SeqNr     uint32    `json:"seqNr"`
 	NoAvoid   bool      `json:"noAvoid,omitempty"`
+	// Order: the init-building history. Absent: add 0, set 0, add 1, set 1, ... (the only shape of the older cases).
+	Order []step `json:"order,omitempty"`
+	// Frags: the fragment-building history. Absent: the fixed one (one CreateFragment fragment for SingleIdx, one
+	// CreateMultiTrackFragment fragment for all tracks, one sample each, encoded without media segment).
+	Frags *fragPlan `json:"frags,omitempty"`
+}
+
+// history returns the init-building steps of the case.
+func (c *initCase) history() []step {
+	if len(c.Order) > 0 {
+		return c.Order
+	}
+	var out []step
+	for i := range c.Ops {
+		out = append(out, step{Op: "add", Track: i}, step{Op: "set", Track: i})
+	}
+	return out
 }
 
 // ---------------------------------------------------------------------------------------------
@@ -124,16 +192,12 @@ type initCase struct {
 
 func pct(t *rapid.T, p int, label string) bool { return rapid.IntRange(0, 99).Draw(t, label) < p }
 
+// fair: true with probability p/100 (rapid's integer ranges favour small values, so pct(t, 25, ..) holds in more than
+// half of the draws; the history generators want the stated odds).
+func fair(t *rapid.T, p int, label string) bool { return esgen.HEVCPct(t, p, label) }
+
 var u32Gen = rapid.OneOf(rapid.SampledFrom([]uint32{1, 2, 1000, 44100, 48000, 90000, 10000000, 0x7fffffff, 0x80000000, 0xffffffff}),
 	rapid.Uint32Range(1, 0xffffffff), rapid.Uint32Range(1, 200000))
-
-func hexList(n [][]byte) []harness.HexBytes {
-	var out []harness.HexBytes
-	for _, b := range n {
-		out = append(out, harness.HexBytes(b))
-	}
-	return out
-}
 
 // ---------------------------------------------------------------------------------------------
 // language tags
@@ -186,274 +250,103 @@ func langShape(l string) string {
 }
 
 // ---------------------------------------------------------------------------------------------
-// AVC parameter sets
+// AVC parameter sets (esgen value trees)
 
-var avcProfiles = []uint32{66, 77, 88, 100, 110, 122, 244, 44}
-var avcLevels = []uint32{10, 11, 12, 13, 20, 21, 22, 30, 31, 32, 40, 41, 42, 50, 51, 52, 60, 62}
-
-func genAVCSPS(t *rapid.T, id uint32, l string) nalgen.AVCSPSTree {
-	var tr nalgen.AVCSPSTree
-	s := &tr.S
-	tr.NalRefIdc = uint8(rapid.IntRange(1, 3).Draw(t, l+"refidc"))
-	s.Profile = rapid.SampledFrom(avcProfiles).Draw(t, l+"profile")
-	s.ProfileCompatibility = uint32(rapid.IntRange(0, 63).Draw(t, l+"constraints")) << 2
-	s.Level = rapid.SampledFrom(avcLevels).Draw(t, l+"level")
-	s.ParameterID = id
-	s.ChromaFormatIDC = 1
-	if nalgen.AVCHighProfileFields(s.Profile) {
-		s.ChromaFormatIDC = byte(rapid.SampledFrom([]int{1, 1, 0, 2, 3}).Draw(t, l+"chroma"))
-		s.BitDepthLumaMinus8 = uint(rapid.SampledFrom([]int{0, 0, 1, 2, 4}).Draw(t, l+"bdl"))
-		s.BitDepthChromaMinus8 = uint(rapid.SampledFrom([]int{0, 0, 1, 2, 4}).Draw(t, l+"bdc"))
-		if s.ChromaFormatIDC == 3 {
-			s.SeparateColourPlaneFlag = rapid.Bool().Draw(t, l+"sep")
-		}
-		s.QPPrimeYZeroTransformBypassFlag = rapid.Bool().Draw(t, l+"qpp")
+func genAVCDesc(t *rapid.T, d *descSpec) []string {
+	d.Codec = "avc"
+	d.SampleEntry = rapid.SampledFrom([]string{"avc1", "avc3"}).Draw(t, "avcEntry")
+	d.IncludePS = d.SampleEntry == "avc1" || pct(t, 60, "includePS") // avc1 without parameter sets is rejected by contract
+	// 1..3 SPS with distinct ids (the first one from the full generator: all profiles of 7.3.2.1.1, scaling lists,
+	// the three POC types, field coding, cropping up to one luma sample left, VUI with HRD), 0..3 PPS referring to them
+	spsT, ppsT := esgen.GenAVCConfSets(t)
+	for i := range spsT {
+		n, _ := nalgen.SerializeAVCSPS(&spsT[i])
+		d.SPS = append(d.SPS, n)
 	}
-	s.Log2MaxFrameNumMinus4 = uint(rapid.IntRange(0, 12).Draw(t, l+"fn"))
-	s.PicOrderCntType = uint(rapid.SampledFrom([]int{0, 2}).Draw(t, l+"poc"))
-	if s.PicOrderCntType == 0 {
-		s.Log2MaxPicOrderCntLsbMinus4 = uint(rapid.IntRange(0, 12).Draw(t, l+"poclsb"))
-	}
-	s.NumRefFrames = uint(rapid.IntRange(0, 16).Draw(t, l+"refs"))
-	s.GapsInFrameNumValueAllowedFlag = rapid.Bool().Draw(t, l+"gaps")
-	s.FrameMbsOnlyFlag = pct(t, 70, l+"fmo")
-	var w, h int
-	switch rapid.IntRange(0, 5).Draw(t, l+"dimsMode") {
-	case 0, 1, 2:
-		w, h = rapid.IntRange(1, 12).Draw(t, l+"wMbs"), rapid.IntRange(1, 12).Draw(t, l+"hMbs")
-	case 3, 4:
-		d := rapid.SampledFrom([][2]int{{120, 68}, {80, 45}, {45, 36}, {22, 18}, {11, 9}, {240, 135}, {256, 135}, {40, 30}, {480, 270}}).Draw(t, l+"dimsReal")
-		w, h = d[0], d[1]
-	default:
-		w, h = rapid.IntRange(1, 1055).Draw(t, l+"wMbsBig"), rapid.IntRange(1, 130).Draw(t, l+"hMbsBig")
-	}
-	if !s.FrameMbsOnlyFlag {
-		h = (h + 1) / 2
-		s.MbAdaptiveFrameFieldFlag = rapid.Bool().Draw(t, l+"mbaff")
-	}
-	tr.PicWidthInMbsMinus1, tr.PicHeightInMapUnitsMinus1 = uint(w-1), uint(h-1)
-	s.Direct8x8InferenceFlag = !s.FrameMbsOnlyFlag || rapid.Bool().Draw(t, l+"d8x8")
-	s.FrameCroppingFlag = rapid.Bool().Draw(t, l+"crop")
-	if s.FrameCroppingFlag {
-		cx, cy := nalgen.AVCCropUnits(s)
-		fw, fh := uint(w)*16, uint(h)*16
-		if !s.FrameMbsOnlyFlag {
-			fh *= 2
-		}
-		hor := uint(rapid.IntRange(0, int((fw-1)/cx)).Draw(t, l+"cropHor"))
-		ver := uint(rapid.IntRange(0, int((fh-1)/cy)).Draw(t, l+"cropVer"))
-		if pct(t, 60, l+"cropSmall") { // realistic: less than one macroblock
-			hor, ver = hor%(16/cx), ver%(32/cy)
-			if ver > (fh-1)/cy {
-				ver = (fh - 1) / cy
+	for i := range ppsT {
+		chroma := byte(1)
+		for j := range spsT {
+			if spsT[j].S.ParameterID == ppsT[i].P.SeqParameterSetID {
+				chroma = esgen.AVCChromaFormatIDC(&spsT[j].S)
 			}
 		}
-		s.FrameCropLeftOffset = uint(rapid.IntRange(0, int(hor)).Draw(t, l+"cropL"))
-		s.FrameCropRightOffset = hor - s.FrameCropLeftOffset
-		s.FrameCropTopOffset = uint(rapid.IntRange(0, int(ver)).Draw(t, l+"cropT"))
-		s.FrameCropBottomOffset = ver - s.FrameCropTopOffset
+		n, _ := nalgen.SerializeAVCPPS(&ppsT[i], chroma)
+		d.PPS = append(d.PPS, n)
 	}
-	return tr
-}
-
-func genAVCPPS(t *rapid.T, id uint32, sps *nalgen.AVCSPSTree, l string) nalgen.AVCPPSTree {
-	var tr nalgen.AVCPPSTree
-	p := &tr.P
-	tr.NalRefIdc = uint8(rapid.IntRange(1, 3).Draw(t, l+"refidc"))
-	p.PicParameterSetID, p.SeqParameterSetID = id, sps.S.ParameterID
-	p.EntropyCodingModeFlag = rapid.Bool().Draw(t, l+"cabac")
-	p.BottomFieldPicOrderInFramePresentFlag = rapid.Bool().Draw(t, l+"bf")
-	p.NumRefIdxI0DefaultActiveMinus1 = uint(rapid.IntRange(0, 31).Draw(t, l+"l0"))
-	p.NumRefIdxI1DefaultActiveMinus1 = uint(rapid.IntRange(0, 31).Draw(t, l+"l1"))
-	p.WeightedPredFlag = rapid.Bool().Draw(t, l+"wp")
-	p.WeightedBipredIDC = uint(rapid.IntRange(0, 2).Draw(t, l+"wbp"))
-	p.PicInitQpMinus26 = rapid.IntRange(-26, 25).Draw(t, l+"qp")
-	p.PicInitQsMinus26 = rapid.IntRange(-26, 25).Draw(t, l+"qs")
-	p.ChromaQpIndexOffset = rapid.IntRange(-12, 12).Draw(t, l+"cqp")
-	p.DeblockingFilterControlPresentFlag = rapid.Bool().Draw(t, l+"dbf")
-	p.ConstrainedIntraPredFlag = rapid.Bool().Draw(t, l+"cip")
-	p.RedundantPicCntPresentFlag = rapid.Bool().Draw(t, l+"red")
-	tr.TailPresent = rapid.Bool().Draw(t, l+"tail")
-	if tr.TailPresent {
-		p.Transform8x8ModeFlag = rapid.Bool().Draw(t, l+"t8x8")
-		p.SecondChromaQpIndexOffset = rapid.IntRange(-12, 12).Draw(t, l+"cqp2")
+	s := &spsT[0]
+	w, h := nalgen.AVCDisplaySize(s)
+	d.Width, d.Height = uint32(w), uint32(h)
+	d.Chroma, d.BdLuma, d.BdChroma = esgen.AVCChromaFormatIDC(&s.S), byte(s.S.BitDepthLumaMinus8), byte(s.S.BitDepthChromaMinus8)
+	cl := esgen.AVCSPSClasses(s)
+	uncropW, uncropH := (s.PicWidthInMbsMinus1+1)*16, (s.PicHeightInMapUnitsMinus1+1)*16
+	if !s.S.FrameMbsOnlyFlag {
+		uncropH *= 2
 	}
-	return tr
-}
-
-func distinct(t *rapid.T, n, max int, label string) []int {
-	seen := map[int]bool{}
-	var out []int
-	for len(out) < n {
-		v := rapid.IntRange(0, max).Draw(t, label)
-		for seen[v] {
-			v = (v + 1) % (max + 1)
+	if w != uncropW || h != uncropH {
+		cl = append(cl, "avc-size-differs-from-coded-size")
+		if uncropW-w >= 16 || uncropH-h >= 16 {
+			cl = append(cl, "avc-crop-one-macroblock-or-more")
 		}
-		seen[v] = true
-		out = append(out, v)
 	}
-	return out
-}
-
-func genAVCOp(t *rapid.T, op *trackOp) {
-	op.Codec = "avc"
-	op.SampleEntry = rapid.SampledFrom([]string{"avc1", "avc3"}).Draw(t, "avcEntry")
-	op.IncludePS = op.SampleEntry == "avc1" || pct(t, 60, "includePS") // avc1 without parameter sets is rejected by contract
-	nSPS := rapid.SampledFrom([]int{1, 1, 1, 2, 3}).Draw(t, "nSPS")
-	nPPS := rapid.SampledFrom([]int{1, 1, 2, 3}).Draw(t, "nPPS")
-	sids, pids := distinct(t, nSPS, 31, "spsID"), distinct(t, nPPS, 255, "ppsID")
-	var trees []nalgen.AVCSPSTree
-	for i := 0; i < nSPS; i++ {
-		tr := genAVCSPS(t, uint32(sids[i]), fmt.Sprintf("s%d-", i))
-		trees = append(trees, tr)
-		n, _ := nalgen.SerializeAVCSPS(&tr)
-		op.SPS = append(op.SPS, n)
-	}
-	for i := 0; i < nPPS; i++ {
-		ref := &trees[rapid.IntRange(0, nSPS-1).Draw(t, "ppsRef")]
-		tr := genAVCPPS(t, uint32(pids[i]), ref, fmt.Sprintf("p%d-", i))
-		chroma := ref.S.ChromaFormatIDC
-		n, _ := nalgen.SerializeAVCPPS(&tr, chroma)
-		op.PPS = append(op.PPS, n)
-	}
-	w, h := nalgen.AVCDisplaySize(&trees[0])
-	op.Width, op.Height = uint32(w), uint32(h)
-	op.Chroma, op.BdLuma, op.BdChroma = trees[0].S.ChromaFormatIDC, byte(trees[0].S.BitDepthLumaMinus8), byte(trees[0].S.BitDepthChromaMinus8)
+	return cl
 }
 
 // ---------------------------------------------------------------------------------------------
-// HEVC parameter sets
+// HEVC parameter sets (esgen value trees)
 
-func hevcSubWH(chroma byte) (uint32, uint32) { // Table 6-1
-	switch chroma {
-	case 1:
-		return 2, 2
-	case 2:
-		return 2, 1
-	}
-	return 1, 1
-}
-
-func genHEVCSPS(t *rapid.T, id int, l string) *nalgen.HEVCSPSTree {
-	tr := &nalgen.HEVCSPSTree{TemporalIDPlus1: 1}
-	s := &tr.SPS
-	s.VpsID = byte(rapid.IntRange(0, 15).Draw(t, l+"vps"))
-	s.TemporalIDNestingFlag = true
-	p := &s.ProfileTierLevel
-	p.GeneralProfileSpace = byte(rapid.SampledFrom([]int{0, 0, 0, 1, 2, 3}).Draw(t, l+"space"))
-	p.GeneralTierFlag = rapid.Bool().Draw(t, l+"tier")
-	p.GeneralProfileIDC = byte(rapid.IntRange(1, 11).Draw(t, l+"idc"))
-	p.GeneralProfileCompatibilityFlags = rapid.OneOf(rapid.Uint32(), rapid.SampledFrom([]uint32{0, 0x60000000, 0x40000000, 1, 0xffffffff})).Draw(t, l+"compat")
-	fl := rapid.IntRange(0, 15).Draw(t, l+"srcflags")
-	p.GeneralProgressiveSourceFlag, p.GeneralInterlacedSourceFlag = fl&1 != 0, fl&2 != 0
-	p.GeneralNonPackedConstraintFlag, p.GeneralFrameOnlyConstraintFlag = fl&4 != 0, fl&8 != 0
-	low44 := rapid.OneOf(rapid.Just(uint64(0)), rapid.Uint64Range(0, 1<<44-1)).Draw(t, l+"low44")
-	p.GeneralConstraintIndicatorFlags = uint64(fl&1)<<47 | uint64(fl>>1&1)<<46 | uint64(fl>>2&1)<<45 | uint64(fl>>3&1)<<44 | low44
-	p.GeneralLevelIDC = byte(rapid.SampledFrom([]int{30, 60, 63, 90, 93, 120, 123, 150, 153, 156, 180, 183, 186, 0, 255}).Draw(t, l+"level"))
-	s.SpsID = byte(id)
-	s.ChromaFormatIDC = byte(rapid.SampledFrom([]int{1, 1, 0, 2, 3}).Draw(t, l+"chroma"))
-	if s.ChromaFormatIDC == 3 {
-		s.SeparateColourPlaneFlag = rapid.Bool().Draw(t, l+"sep")
-	}
-	s.Log2MinLumaCodingBlockSizeMinus3, s.Log2DiffMaxMinLumaCodingBlockSize = 0, byte(rapid.IntRange(1, 3).Draw(t, l+"ctb"))
-	const minCb = 8
-	var w, h int
-	switch rapid.IntRange(0, 4).Draw(t, l+"dimsMode") {
-	case 0, 1:
-		w, h = rapid.IntRange(1, 40).Draw(t, l+"w8"), rapid.IntRange(1, 40).Draw(t, l+"h8")
-	case 2, 3:
-		d := rapid.SampledFrom([][2]int{{176, 144}, {352, 288}, {416, 240}, {640, 360}, {1280, 720}, {1920, 1080}, {1920, 1088}, {3840, 2160}, {7680, 4320}, {8192, 4320}}).Draw(t, l+"dimsReal")
-		w, h = (d[0]+minCb-1)/minCb, (d[1]+minCb-1)/minCb
-	default:
-		w, h = rapid.IntRange(1, 8191).Draw(t, l+"w8big"), rapid.IntRange(1, 8191).Draw(t, l+"h8big")
-	}
-	s.PicWidthInLumaSamples, s.PicHeightInLumaSamples = uint32(w*minCb), uint32(h*minCb)
-	s.ConformanceWindowFlag = rapid.Bool().Draw(t, l+"cw")
-	if s.ConformanceWindowFlag {
-		sw, sh := hevcSubWH(s.ChromaFormatIDC)
-		mw, mh := int((s.PicWidthInLumaSamples-1)/sw), int((s.PicHeightInLumaSamples-1)/sh)
-		if pct(t, 60, l+"cwSmall") {
-			if mw > 7 {
-				mw = 7
-			}
-			if mh > 7 {
-				mh = 7
-			}
-		}
-		hor, ver := rapid.IntRange(0, mw).Draw(t, l+"cwHor"), rapid.IntRange(0, mh).Draw(t, l+"cwVer")
-		le, to := rapid.IntRange(0, hor).Draw(t, l+"cwL"), rapid.IntRange(0, ver).Draw(t, l+"cwT")
-		s.ConformanceWindow = hevc.ConformanceWindow{LeftOffset: uint32(le), RightOffset: uint32(hor - le), TopOffset: uint32(to), BottomOffset: uint32(ver - to)}
-	}
-	// bit depths up to 15 bits: the 3-bit fields of the hvcC record cannot hold bit_depth_minus8 = 8
-	s.BitDepthLumaMinus8 = byte(rapid.SampledFrom([]int{0, 0, 2, 4, 7}).Draw(t, l+"bdl"))
-	s.BitDepthChromaMinus8 = byte(rapid.SampledFrom([]int{0, 0, 2, 4, 7}).Draw(t, l+"bdc"))
-	s.Log2MaxPicOrderCntLsbMinus4 = byte(rapid.IntRange(0, 12).Draw(t, l+"poc"))
-	s.SubLayerOrderingInfoPresentFlag = rapid.Bool().Draw(t, l+"slo")
-	dpb := rapid.IntRange(0, 15).Draw(t, l+"dpb")
-	s.SubLayeringOrderingInfos = []hevc.SubLayerOrderingInfo{{MaxDecPicBufferingMinus1: byte(dpb),
-		MaxNumReorderPics: byte(rapid.IntRange(0, dpb).Draw(t, l+"reo")), MaxLatencyIncreasePlus1: byte(rapid.IntRange(0, 200).Draw(t, l+"lat"))}}
-	s.Log2MinLumaTransformBlockSizeMinus2, s.Log2DiffMaxMinLumaTransformBlockSize = 0, 1
-	s.MaxTransformHierarchyDepthInter = byte(rapid.IntRange(0, 2).Draw(t, l+"thi"))
-	s.MaxTransformHierarchyDepthIntra = byte(rapid.IntRange(0, 2).Draw(t, l+"tha"))
-	fl2 := rapid.IntRange(0, 15).Draw(t, l+"toolflags")
-	s.AmpEnabledFlag, s.SampleAdaptiveOffsetEnabledFlag = fl2&1 != 0, fl2&2 != 0
-	s.SpsTemporalMvpEnabledFlag, s.StrongIntraSmoothingEnabledFlag = fl2&4 != 0, fl2&8 != 0
-	return tr
-}
-
-func genHEVCPPS(t *rapid.T, id int, sps *nalgen.HEVCSPSTree, l string) *nalgen.HEVCPPSTree {
-	tr := &nalgen.HEVCPPSTree{TemporalIDPlus1: 1}
-	p := &tr.PPS
-	p.PicParameterSetID, p.SeqParameterSetID = uint32(id), uint32(sps.SPS.SpsID)
-	fl := rapid.IntRange(0, 255).Draw(t, l+"flags")
-	p.DependentSliceSegmentsEnabledFlag, p.OutputFlagPresentFlag, p.SignDataHidingEnabledFlag = fl&1 != 0, fl&2 != 0, fl&4 != 0
-	p.CabacInitPresentFlag, p.ConstrainedIntraPredFlag, p.TransformSkipEnabledFlag = fl&8 != 0, fl&16 != 0, fl&32 != 0
-	p.WeightedPredFlag, p.EntropyCodingSyncEnabledFlag = fl&64 != 0, fl&128 != 0
-	p.NumRefIdxL0DefaultActiveMinus1 = uint8(rapid.IntRange(0, 14).Draw(t, l+"l0"))
-	p.InitQpMinus26 = int8(rapid.IntRange(-26, 25).Draw(t, l+"qp"))
-	p.CbQpOffset, p.CrQpOffset = int8(rapid.IntRange(-12, 12).Draw(t, l+"cb")), int8(rapid.IntRange(-12, 12).Draw(t, l+"cr"))
-	return tr
-}
-
-func genHEVCOp(t *rapid.T, op *trackOp) {
-	op.Codec = "hevc"
-	op.SampleEntry = rapid.SampledFrom([]string{"hvc1", "hev1"}).Draw(t, "hevcEntry")
-	op.IncludePS = op.SampleEntry == "hvc1" || pct(t, 60, "includePS") // hvc1 without parameter sets is rejected by contract
+func genHEVCDesc(t *rapid.T, d *descSpec) []string {
+	d.Codec = "hevc"
+	d.SampleEntry = rapid.SampledFrom([]string{"hvc1", "hev1"}).Draw(t, "hevcEntry")
+	d.IncludePS = d.SampleEntry == "hvc1" || pct(t, 60, "includePS") // hvc1 without parameter sets is rejected by contract
 	nSPS := rapid.SampledFrom([]int{1, 1, 1, 2}).Draw(t, "nSPS")
 	nPPS := rapid.SampledFrom([]int{1, 1, 2, 3}).Draw(t, "nPPS")
-	sids, pids := distinct(t, nSPS, 15, "spsID"), distinct(t, nPPS, 63, "ppsID")
+	sids, pids := esgen.HEVCDistinct(t, nSPS, 15, "spsID"), esgen.HEVCDistinct(t, nPPS, 63, "ppsID")
 	var trees []*nalgen.HEVCSPSTree
 	for i := 0; i < nSPS; i++ {
-		tr := genHEVCSPS(t, sids[i], fmt.Sprintf("s%d-", i))
+		// MaxDim: sqrt(8 * MaxLumaPs) of level 6.2 (A.4.1)
+		o := esgen.HEVCSPSOpts{ID: sids[i], Lean: i > 0, Log2Poc: -1, SAO: -1, MaxDim: 16888}
+		var tr *nalgen.HEVCSPSTree
+		for try := 0; ; try++ {
+			tr = esgen.HEVCGenSPS(t, o, fmt.Sprintf("s%d.%d-", i, try))
+			// the 3-bit bitDepthLumaMinus8 / bitDepthChromaMinus8 fields of the hvcC record (ISO/IEC 14496-15 8.3.3.1.2)
+			// cannot hold 8 (16 bit): outside the domain of the record for the SPS that determines its fields
+			if i > 0 || (tr.SPS.BitDepthLumaMinus8 <= 7 && tr.SPS.BitDepthChromaMinus8 <= 7) {
+				break
+			}
+			harness.Rec.Exclude("hevc-16-bit-depth-not-representable-in-hvcC")
+		}
 		trees = append(trees, tr)
 		n, _ := nalgen.HEVCWriteSPS(tr)
-		op.SPS = append(op.SPS, n)
+		d.SPS = append(d.SPS, n)
 	}
 	for i := 0; i < nPPS; i++ {
-		tr := genHEVCPPS(t, pids[i], trees[rapid.IntRange(0, nSPS-1).Draw(t, "ppsRef")], fmt.Sprintf("p%d-", i))
+		tr := esgen.HEVCGenPPS(t, trees[rapid.IntRange(0, nSPS-1).Draw(t, "ppsRef")], pids[i], fmt.Sprintf("p%d-", i))
 		n, _ := nalgen.HEVCWritePPS(tr)
-		op.PPS = append(op.PPS, n)
+		d.PPS = append(d.PPS, n)
 	}
 	s := &trees[0].SPS
 	nVPS := rapid.SampledFrom([]int{1, 1, 1, 2, 0}).Draw(t, "nVPS")
 	for i := 0; i < nVPS; i++ {
-		v := &nalgen.HEVCVPSTree{VpsID: (s.VpsID + byte(i)) & 15, BaseLayerInternalFlag: true, BaseLayerAvailableFlag: true,
-			TemporalIDNestingFlag: true, PTL: s.ProfileTierLevel, SubLayerOrderingInfoPresent: s.SubLayerOrderingInfoPresentFlag,
-			OrderingInfos: s.SubLayeringOrderingInfos, TimingInfoPresentFlag: rapid.Bool().Draw(t, "vpsTiming"), NumUnitsInTick: 1001, TimeScale: 60000}
-		op.VPS = append(op.VPS, nalgen.HEVCWriteVPS(v))
+		v := esgen.HEVCGenVPS(t, s, fmt.Sprintf("v%d-", i))
+		v.VpsID = (s.VpsID + byte(i)) & 15
+		d.VPS = append(d.VPS, nalgen.HEVCWriteVPS(v))
 	}
-	if op.IncludePS && pct(t, 30, "sei") { // prefix SEI NAL units are carried opaquely in a fourth array
+	if d.IncludePS && pct(t, 30, "sei") { // prefix SEI NAL units are carried opaquely in a fourth array
 		n := rapid.IntRange(1, 2).Draw(t, "nSEI")
 		for i := 0; i < n; i++ {
 			pl := rapid.SliceOfN(rapid.ByteRange(1, 255), 17, 24).Draw(t, "seiPayload")
 			nal := append(nalgen.HEVCNalHeader(39, 0, 1), 5, byte(len(pl)))
-			op.SEI = append(op.SEI, append(append(nal, pl...), 0x80))
+			d.SEI = append(d.SEI, append(append(nal, pl...), 0x80))
 		}
 	}
-	sw, sh := hevcSubWH(s.ChromaFormatIDC)
-	op.Width = s.PicWidthInLumaSamples - sw*(s.ConformanceWindow.LeftOffset+s.ConformanceWindow.RightOffset)
-	op.Height = s.PicHeightInLumaSamples - sh*(s.ConformanceWindow.TopOffset+s.ConformanceWindow.BottomOffset)
-	op.Chroma, op.BdLuma, op.BdChroma = s.ChromaFormatIDC, s.BitDepthLumaMinus8, s.BitDepthChromaMinus8
+	// 7.4.3.2.1: the conformance window offsets are in units of SubWidthC / SubHeightC (Table 6-1)
+	sw, sh := esgen.HEVCSubWH(s.ChromaFormatIDC, s.SeparateColourPlaneFlag)
+	d.Width, d.Height = s.PicWidthInLumaSamples, s.PicHeightInLumaSamples
+	if s.ConformanceWindowFlag {
+		d.Width -= sw * (s.ConformanceWindow.LeftOffset + s.ConformanceWindow.RightOffset)
+		d.Height -= sh * (s.ConformanceWindow.TopOffset + s.ConformanceWindow.BottomOffset)
+	}
+	d.Chroma, d.BdLuma, d.BdChroma = s.ChromaFormatIDC, s.BitDepthLumaMinus8, s.BitDepthChromaMinus8
 	p := &s.ProfileTierLevel
 	w := nalgen.NewBitWriter()
 	w.U(uint64(p.GeneralProfileSpace), 2)
@@ -462,7 +355,12 @@ func genHEVCOp(t *rapid.T, op *trackOp) {
 	w.U(uint64(p.GeneralProfileCompatibilityFlags), 32)
 	w.U(p.GeneralConstraintIndicatorFlags, 48)
 	w.U(uint64(p.GeneralLevelIDC), 8)
-	op.PTL = w.Out()
+	d.PTL = w.Out()
+	cl := esgen.HEVCSPSClasses(trees[0])
+	if d.Width != s.PicWidthInLumaSamples || d.Height != s.PicHeightInLumaSamples {
+		cl = append(cl, "hevc-size-differs-from-coded-size")
+	}
+	return cl
 }
 
 // ---------------------------------------------------------------------------------------------
@@ -470,7 +368,7 @@ func genHEVCOp(t *rapid.T, op *trackOp) {
 
 var aacFreqs = []int{96000, 88200, 64000, 48000, 44100, 32000, 24000, 22050, 16000, 12000, 11025, 8000, 7350}
 
-func genAudioOp(t *rapid.T, op *trackOp) {
+func genAudioDesc(t *rapid.T, op *descSpec) {
 	switch rapid.IntRange(0, 3).Draw(t, "audioCodec") {
 	case 0, 1:
 		op.Codec = "aac"
@@ -515,7 +413,7 @@ func genText(t *rapid.T, label string, max int) string {
 	return string(rapid.SliceOfN(strChar, 0, max).Draw(t, label))
 }
 
-func genWvttOp(t *rapid.T, op *trackOp) {
+func genWvttDesc(t *rapid.T, op *descSpec) {
 	op.Codec = "wvtt"
 	switch rapid.IntRange(0, 3).Draw(t, "vttShape") {
 	case 0:
@@ -527,7 +425,7 @@ func genWvttOp(t *rapid.T, op *trackOp) {
 	}
 }
 
-func genStppOp(t *rapid.T, op *trackOp) {
+func genStppDesc(t *rapid.T, op *descSpec) {
 	op.Codec = "stpp"
 	op.StppNS = rapid.SampledFrom([]string{"", "http://www.w3.org/ns/ttml", "http://www.w3.org/ns/ttml http://www.w3.org/ns/ttml#metadata", "urn:x", "ns:" + genText(t, "nsTail", 12)}).Draw(t, "stppNS")
 	if pct(t, 50, "schema?") {
@@ -539,9 +437,36 @@ func genStppOp(t *rapid.T, op *trackOp) {
 }
 
 // ---------------------------------------------------------------------------------------------
-// the op list
+// the track list
 
-func genOp(t *rapid.T) trackOp {
+// genDesc draws the arguments of a Set*Descriptor call that matches the media type.
+func genDesc(t *rapid.T, mt string, d *descSpec) []string {
+	switch mt {
+	case "video", "vide":
+		if rapid.Bool().Draw(t, "hevc?") {
+			return genHEVCDesc(t, d)
+		}
+		return genAVCDesc(t, d)
+	case "audio", "soun":
+		genAudioDesc(t, d)
+	case "subtitle", "subt", "stpp":
+		genStppDesc(t, d)
+	case "text", "wvtt":
+		genWvttDesc(t, d)
+	default:
+		d.Codec = "none" // no Set*Descriptor exists for timed metadata / closed caption tracks: the stsd stays empty
+	}
+	return nil
+}
+
+func genSample(t *rapid.T) sampleSpec {
+	return sampleSpec{Data: rapid.SliceOfN(rapid.Byte(), 1, 12).Draw(t, "sampleData"), Dur: rapid.OneOf(rapid.Uint32Range(0, 5000), rapid.Uint32()).Draw(t, "dur"),
+		Flags:      rapid.OneOf(rapid.SampledFrom([]uint32{0, 0x02000000, 0x01010000}), rapid.Uint32()).Draw(t, "flags"),
+		Cto:        rapid.OneOf(rapid.Int32Range(-5000, 5000), rapid.Int32()).Draw(t, "cto"),
+		DecodeTime: rapid.OneOf(rapid.Uint64Range(0, 1<<20), rapid.SampledFrom([]uint64{0, 1<<32 - 1, 1 << 32, 1<<63 - 1}), rapid.Uint64Range(0, 1<<62)).Draw(t, "decodeTime")}
+}
+
+func genOp(t *rapid.T, wantAlt bool) (trackOp, []string) {
 	op := trackOp{Timescale: u32Gen.Draw(t, "timescale"), Lang: genLang(t)}
 	mt := rapid.SampledFrom([]string{"video", "video", "video", "audio", "audio", "audio", "vide", "soun", "subtitle", "subt", "stpp", "stpp",
 		"text", "wvtt", "wvtt", "meta", "clcp"}).Draw(t, "mediaType")
@@ -549,35 +474,210 @@ func genOp(t *rapid.T) trackOp {
 		mt = map[string]string{"vide": "video", "soun": "audio", "subt": "subtitle", "clcp": "meta"}[mt]
 	}
 	op.MediaType = mt
-	switch mt {
-	case "video", "vide":
-		if rapid.Bool().Draw(t, "hevc?") {
-			genHEVCOp(t, &op)
-		} else {
-			genAVCOp(t, &op)
-		}
-	case "audio", "soun":
-		genAudioOp(t, &op)
-	case "subtitle", "subt", "stpp":
-		genStppOp(t, &op)
-	case "text", "wvtt":
-		genWvttOp(t, &op)
-	default:
-		op.Codec = "none" // no Set*Descriptor exists for timed metadata / closed caption tracks: the stsd stays empty
+	cl := genDesc(t, mt, &op.descSpec)
+	if wantAlt && op.Codec != "none" {
+		op.Alt = &descSpec{}
+		cl = append(cl, genDesc(t, mt, op.Alt)...)
 	}
-	op.Sample = sampleSpec{Data: rapid.SliceOfN(rapid.Byte(), 1, 12).Draw(t, "sampleData"), Dur: rapid.OneOf(rapid.Uint32Range(0, 5000), rapid.Uint32()).Draw(t, "dur"),
-		Flags:      rapid.OneOf(rapid.SampledFrom([]uint32{0, 0x02000000, 0x01010000}), rapid.Uint32()).Draw(t, "flags"),
-		Cto:        rapid.OneOf(rapid.Int32Range(-5000, 5000), rapid.Int32()).Draw(t, "cto"),
-		DecodeTime: rapid.OneOf(rapid.Uint64Range(0, 1<<20), rapid.SampledFrom([]uint64{0, 1<<32 - 1, 1 << 32, 1<<63 - 1}), rapid.Uint64Range(0, 1<<62)).Draw(t, "decodeTime")}
-	return op
+	op.Sample = genSample(t)
+	return op, cl
 }
 
-func genCase(t *rapid.T) initCase {
+// genOrder draws the init-building history: the tracks are added in the order of c.Ops (the i-th AddEmptyTrack call
+// makes track id i+1), every Set*Descriptor call happens somewhere after the AddEmptyTrack call of its track,
+// interleaved with later AddEmptyTrack calls and the Set calls of other tracks. A track with a second descriptor
+// gets two Set calls (first/second, or the first one twice); now and then a track is never described.
+func genOrder(t *rapid.T, c *initCase) {
+	n := len(c.Ops)
+	pending := make([][]step, n) // Set calls of the track still to be made, in order
+	for k := range c.Ops {
+		if c.Ops[k].Codec == "none" {
+			continue
+		}
+		switch {
+		case c.Ops[k].Alt != nil:
+			switch rapid.IntRange(0, 3).Draw(t, "twiceShape") {
+			case 0:
+				pending[k] = []step{{Op: "set", Track: k, Alt: true}, {Op: "set", Track: k}}
+			case 1:
+				pending[k] = []step{{Op: "set", Track: k, Alt: true}} // only the second descriptor is used
+			default:
+				pending[k] = []step{{Op: "set", Track: k}, {Op: "set", Track: k, Alt: true}}
+			}
+		case fair(t, 8, "sameTwice"):
+			pending[k] = []step{{Op: "set", Track: k}, {Op: "set", Track: k}}
+		case fair(t, 6, "neverDescribed"):
+		default:
+			pending[k] = []step{{Op: "set", Track: k}}
+		}
+	}
+	added := 0
+	for {
+		var ready []int // tracks added with Set calls pending
+		for k := 0; k < added; k++ {
+			if len(pending[k]) > 0 {
+				ready = append(ready, k)
+			}
+		}
+		if added == n && len(ready) == 0 {
+			return
+		}
+		// choice 0: add the next track (if any); choice i>0: the next Set call of ready[i-1]
+		lo, hi := 0, len(ready)
+		if added == n {
+			lo = 1
+		}
+		ch := lo
+		if hi > lo {
+			ch = lo + esgen.HEVCUni(t, hi-lo+1, "next")
+		}
+		if ch == 0 {
+			c.Order = append(c.Order, step{Op: "add", Track: added})
+			added++
+			continue
+		}
+		k := ready[ch-1]
+		c.Order = append(c.Order, pending[k][0])
+		pending[k] = pending[k][1:]
+	}
+}
+
+// genFrags draws the fragment-building history: 1..4 fragments (single track through CreateFragment, or multi
+// track), grouped into media segments in a drawn attach order (or encoded loose), and 1..10 samples added to them
+// in a drawn order that interleaves fragments and tracks; creation, attaching and adding are interleaved as well.
+func genFrags(t *rapid.T, c *initCase) {
+	n := len(c.Ops)
+	p := &fragPlan{Loose: fair(t, 25, "loose"), Styp: rapid.Bool().Draw(t, "styp")}
+	nFrags := rapid.SampledFrom([]int{1, 2, 2, 3, 4}).Draw(t, "nFrags")
+	all := make([]int, n)
+	for i := range all {
+		all[i] = i
+	}
+	for i := 0; i < nFrags; i++ {
+		var f fragSpec
+		if n == 1 || fair(t, 45, "singleTrack") {
+			f.Tracks = []int{rapid.IntRange(0, n-1).Draw(t, "fragTrack")}
+			f.Multi = fair(t, 25, "multiAPIForOne")
+		} else {
+			perm := rapid.Permutation(all).Draw(t, "fragTracks")
+			f.Tracks = append([]int{}, perm[:rapid.IntRange(2, n).Draw(t, "nFragTracks")]...)
+			f.Multi = true
+		}
+		p.Frags = append(p.Frags, f)
+	}
+	// samples: every fragment gets at least one; decode times of a track continue inside a fragment (the time of the
+	// first sample of a track in a fragment is free)
+	nAdds := rapid.IntRange(nFrags, 10).Draw(t, "nAdds")
+	type key struct{ f, k int }
+	next := map[key]uint64{}
+	var adds []fragStep
+	for i := 0; i < nAdds; i++ {
+		fi := i
+		if i >= nFrags {
+			fi = esgen.HEVCUni(t, nFrags, "addFrag")
+		}
+		f := &p.Frags[fi]
+		k := f.Tracks[esgen.HEVCUni(t, len(f.Tracks), "addTrack")]
+		s := genSample(t)
+		if s.Dur > 1<<24 && fair(t, 80, "durSmall") {
+			s.Dur >>= 12
+		}
+		if dt, ok := next[key{fi, k}]; ok {
+			s.DecodeTime = dt
+		}
+		next[key{fi, k}] = s.DecodeTime + uint64(s.Dur)
+		adds = append(adds, fragStep{Op: "sample", Frag: fi, Track: k, ToTrack: f.Multi || fair(t, 30, "toTrack"), Sample: &s})
+	}
+	if fair(t, 60, "shuffleAdds") {
+		// any order of the calls, except that the samples of one (fragment, track) pair keep their relative order
+		perm := rapid.Permutation(adds).Draw(t, "addOrder")
+		idx := map[key][]int{}
+		for i, a := range perm {
+			idx[key{a.Frag, a.Track}] = append(idx[key{a.Frag, a.Track}], i)
+		}
+		out := make([]fragStep, len(perm))
+		used := map[key]int{}
+		for _, a := range adds {
+			kk := key{a.Frag, a.Track}
+			out[idx[kk][used[kk]]] = a
+			used[kk]++
+		}
+		adds = out
+	}
+	// weave creation / segment / attach steps in: a fragment is created before its first sample and before it is
+	// attached; a segment exists before the first attach; every fragment is attached exactly once
+	created := make([]bool, nFrags)
+	attached := make([]bool, nFrags)
+	segOpen := false
+	attach := func(fi int) {
+		if p.Loose || attached[fi] {
+			return
+		}
+		if !segOpen || fair(t, 35, "newSeg") {
+			p.Steps = append(p.Steps, fragStep{Op: "seg"})
+			segOpen = true
+		}
+		p.Steps = append(p.Steps, fragStep{Op: "attach", Frag: fi})
+		attached[fi] = true
+	}
+	create := func(fi int) {
+		if created[fi] {
+			return
+		}
+		if fair(t, 30, "createEarlier") { // create (and maybe attach) another fragment first
+			for o := 0; o < nFrags; o++ {
+				if !created[o] && o != fi {
+					created[o] = true
+					p.Steps = append(p.Steps, fragStep{Op: "frag", Frag: o})
+					if fair(t, 50, "attachEarly") {
+						attach(o)
+					}
+					break
+				}
+			}
+		}
+		created[fi] = true
+		p.Steps = append(p.Steps, fragStep{Op: "frag", Frag: fi})
+		if fair(t, 50, "attachEarly") {
+			attach(fi)
+		}
+	}
+	for _, a := range adds {
+		create(a.Frag)
+		p.Steps = append(p.Steps, a)
+		if fair(t, 20, "attachMid") {
+			attach(a.Frag)
+		}
+	}
+	order := make([]int, nFrags)
+	for i := range order {
+		order[i] = i
+	}
+	if fair(t, 40, "attachOrder") {
+		order = rapid.Permutation(order).Draw(t, "attachPerm")
+	}
+	for _, fi := range order {
+		attach(fi)
+	}
+	c.Frags = p
+}
+
+func genCase(t *rapid.T) (initCase, []string) {
 	n := rapid.SampledFrom([]int{1, 1, 2, 2, 3, 4, 5, 6}).Draw(t, "nTracks")
 	c := initCase{SeqNr: rapid.OneOf(rapid.Uint32Range(0, 10), rapid.Uint32()).Draw(t, "seqNr")}
+	canonical := fair(t, 25, "canonicalOrder") // the old history shape: add, set, add, set ...
+	var cl []string
 	for i := 0; i < n; i++ {
-		c.Ops = append(c.Ops, genOp(t))
+		op, l := genOp(t, !canonical && fair(t, 25, "secondDescriptor"))
+		c.Ops = append(c.Ops, op)
+		cl = append(cl, l...)
 	}
 	c.SingleIdx = rapid.IntRange(0, n-1).Draw(t, "singleIdx")
-	return c
+	if !canonical {
+		genOrder(t, &c)
+	}
+	if fair(t, 85, "fragPlan") {
+		genFrags(t, &c)
+	}
+	return c, cl
 }
